@@ -144,7 +144,7 @@ def glyphset_to_desc(gs):
     return {n: glyph_to_desc(gs[n]) for n in gs.keys()}
 
 
-def segments_to_contours(ops):
+def segments_to_contours(ops, close_eps=0.0):
     """RecordingPen value (moveTo/lineTo/curveTo/qCurveTo/closePath/endPath) -> cyclic flagged point lists"""
     out, cur = [], None
     for op, args in ops:
@@ -159,8 +159,8 @@ def segments_to_contours(ops):
                 cur.append((args[-1][0], args[-1][1], True))
         elif op in ("closePath", "endPath"):
             if cur is not None:
-                # explicit closing point == start point (up to the 16.16 / two-decimal re-encoding noise of unrounded CFF operands)
-                if len(cur) > 1 and cur[-1][2] and cur[0][2] and abs(cur[-1][0] - cur[0][0]) < 0.02 and abs(cur[-1][1] - cur[0][1]) < 0.02:
+                # explicit closing point == start point (exactly, or up to `close_eps` when unrounded CFF operands were re-encoded)
+                if len(cur) > 1 and cur[-1][2] and cur[0][2] and abs(cur[-1][0] - cur[0][0]) <= close_eps and abs(cur[-1][1] - cur[0][1]) <= close_eps:
                     cur = cur[:-1]
                 out.append(cur)
             cur = None
